@@ -619,6 +619,9 @@ def run_param(ctx, R, pname, nparams, only=None):
                     if not ctx.mine(idx):
                         continue
                     H.case(d, s, cls, alias, directed=True)
+    # ---- phase L: the layer below relic_fpx.h (reduction of double-precision elements, unreduced add/sub/dbl)
+    if only is None:
+        H.low_phase([d for d in (2, 3) if d in flist], nparams)
     # ---- phase 2: random cases per degree
     for d in sorted(flist):
         q, t = COUNTS[d]
@@ -1567,6 +1570,279 @@ class Handlers(object):
 
     def h_upk_max(self, d, fn, cls, alias, a, ma, key, desc):
         self.h_pck_max(d, "fp%d_pck_max" % d, cls, alias, a, ma, key, desc)
+
+    # ---------------------------------------------------------------- the layer below relic_fpx.h
+    # fpN_rdc_basic / fpN_rdc_integ (src/fpx/relic_fpx_rdc.c; contract of fpN_rdcn_low / fp_rdc: every coefficient of the
+    # double-precision element is reduced modulo p - with Montgomery reduction c_i = T_i * R^-1 mod p for T_i < p * R,
+    # R = 2^(RLC_DIG * RLC_FP_DIGS)) and the coefficient-wise fpN_{add,sub,dbl}{n,d}_low of relic_fpx_low.h
+    # ("Computes c = a + b / a - b / a + a" on single (n) or double (d) precision digit vectors, no reduction): judged as
+    # plain integers, with operands for which the result fits the digit vector and is not negative.
+    RDC_CLASSES = ["zero", "prod", "prod-edge", "sqr-p-1", "max", "near-max", "mult-p", "R-1", "R-edge", "digits", "rnd",
+                   "mixed"]
+    LOW_OPS = [("addn", "add", 1), ("addd", "add", 2), ("subn", "sub", 1), ("subd", "sub", 2), ("dbln", "dbl", 1)]
+    LOW_CLASSES = {"add": ["zero", "ident", "carry", "max", "field", "rnd"],
+                   "sub": ["zero", "equal", "ident", "borrow", "max", "field", "rnd"],
+                   "dbl": ["zero", "carry", "max", "field", "rnd"]}
+
+    def low_phase(self, degs, nparams):
+        ctx, R, T, rng = self.ctx, self.R, self.T, self.rng
+        if not degs:
+            return
+        self.dvpool = {}
+        rdc_target = R.target("fp_rdc") if R.has("fp_rdc") else ""
+        monty = "monty" in rdc_target and R.mont != 1
+        ctx.note("fp_rdc_dispatch_" + ctx.cfg, rdc_target)
+        rdc, low, missing = [], [], []
+        for d in degs:
+            for s in ("rdc_basic", "rdc_integ"):
+                fn = "fp%d_%s" % (d, s)
+                (rdc if R.has(fn) else missing).append((d, fn))
+            for s, op, prec in self.LOW_OPS:
+                fn = "fp%d_%s_low" % (d, s)
+                if R.has(fn):
+                    low.append((d, fn, op, prec))
+                else:
+                    missing.append((d, fn))
+        if missing:
+            ctx.note("low_level_not_built", sorted(fn for _, fn in missing))
+        if not monty:
+            # the value of a non-Montgomery reduction (T mod p) has another domain; not claimed here
+            ctx.note("rdc_not_judged_reduction_is_not_montgomery_" + ctx.cfg, rdc_target)
+            rdc = []
+        # directed: every (function, class[, alias]) once, split over the shards
+        k = 0
+        for d, fn in rdc:
+            for cls in self.RDC_CLASSES:
+                k += 1
+                if ctx.mine(k):
+                    self.low_case(self.rdc_case, d, fn, cls)
+        for d, fn, op, prec in low:
+            for cls in self.LOW_CLASSES[op]:
+                for alias in ((0, 1) if op == "dbl" else (0, 1, 2)):
+                    k += 1
+                    if ctx.mine(k):
+                        self.low_case(self.addsub_case, d, fn, op, prec, cls, alias)
+        # random
+        q, t = 1600, 30000
+        if T.pname in SWEEP_NAMES:
+            n = ctx.n(q, q) // ctx.nshards
+        elif ctx.cfg == "asan256x":
+            n = int(ctx.n(q, t) * 0.3) // ctx.nshards
+        else:
+            n = ctx.n(q, t) // ctx.nshards // nparams
+        for _ in range(n):
+            R.poison = rng.randrange(1, 256)
+            if rdc and rng.random() < 0.6:
+                d, fn = rng.choice(rdc)
+                self.low_case(self.rdc_case, d, fn, rng.choice(self.RDC_CLASSES))
+            elif low:
+                d, fn, op, prec = rng.choice(low)
+                self.low_case(self.addsub_case, d, fn, op, prec, rng.choice(self.LOW_CLASSES[op]),
+                              rng.randrange(2 if op == "dbl" else 3))
+
+    def low_case(self, f, *args):
+        ctx = self.ctx
+        try:
+            f(*args)
+        except MonitorViolation as e:
+            ctx.fail((ctx.cur_key or args[1]) + "|" + e.kind, e.detail)
+        finally:
+            ctx.end()
+
+    def dvs(self, d):
+        """three double-precision elements (dvN_t = d consecutive dv_t), exact-size blocks"""
+        o = self.dvpool.get(d)
+        if o is None:
+            o = tuple(self.R.mem(self.T.dvsz * d, 0x5A) for _ in range(3))
+            self.dvpool[d] = o
+        return o
+
+    def dv_put(self, ptr, vals, ndig):
+        """the first ndig digits of every dv_t hold the value, the rest of the dv_t the poison byte"""
+        R, T = self.R, self.T
+        n = ndig * R.DB
+        for i, v in enumerate(vals):
+            raw = v.to_bytes(n, "little") + bytes([R.poison]) * (T.dvsz - n)
+            ctypes.memmove(ptr + i * T.dvsz, raw, T.dvsz)
+
+    def rdc_value(self, cls):
+        """one double-precision coefficient T < p * R of the class"""
+        rng, R, p = self.rng, self.R, self.T.p
+        W = R.DIG * R.FP_DIGS
+        Rr = 1 << W
+        lim = p * Rr
+        if cls == "zero":
+            return 0
+        if cls == "prod":
+            return rng.randrange(p) * rng.randrange(p)
+        if cls == "prod-edge":
+            ev = [1, 2, p - 1, p - 2, (p - 1) // 2, (p + 1) // 2, 1 << (p.bit_length() - 1), (1 << (p.bit_length() - 1)) - 1,
+                  (1 << R.DIG) - 1, 1 << R.DIG, p - (1 << R.DIG), Rr % p, (Rr - 1) % p]
+            return rng.choice(ev) * rng.choice(ev + [rng.randrange(p)])
+        if cls == "sqr-p-1":
+            return (p - 1) * (p - 1)
+        if cls == "max":
+            return lim - 1
+        if cls == "near-max":
+            return lim - 1 - rng.randrange(1, 1 << rng.choice([1, 8, R.DIG, W, W + R.DIG]))
+        if cls == "mult-p":
+            return p * rng.choice([1, 2, 3, Rr - 1, Rr - 2, (1 << R.DIG) - 1, 1 << R.DIG, rng.randrange(1, Rr),
+                                   rng.randrange(1, Rr)])
+        if cls == "R-1":
+            return Rr - 1
+        if cls == "R-edge":
+            return rng.choice([Rr, Rr + 1, Rr - 2, 2 * Rr - 1, (p - 1) * Rr, Rr * rng.randrange(1, p),
+                               Rr * rng.randrange(1, p) + Rr - 1, rng.randrange(Rr)])
+        if cls == "digits":
+            # every digit zero, all ones or random; the upper half is brought below p by clearing its leading bits
+            v = 0
+            for i in range(2 * R.FP_DIGS):
+                v |= rng.choice([0, R.B - 1, R.B - 1, rng.getrandbits(R.DIG)]) << (R.DIG * i)
+            hi = v >> W
+            if hi >= p:
+                hi &= (1 << (p.bit_length() - 1)) - 1
+            return (hi << W) | (v & (Rr - 1))
+        if cls == "rnd":
+            return rng.randrange(lim)
+        raise KeyError(cls)
+
+    def rdc_case(self, d, fn, cls):
+        ctx, R, T, rng = self.ctx, self.R, self.T, self.rng
+        p = T.p
+        W = R.DIG * R.FP_DIGS
+        if cls == "mixed":
+            vals = [self.rdc_value(c) for c in rng.sample([c for c in self.RDC_CLASSES if c != "mixed"], d)]
+        else:
+            vals = [self.rdc_value(cls) for _ in range(d)]
+        key = "%s|%s" % (fn, cls)
+        self.tok = ["monty"]
+        if not ctx.begin(key, {"set": T.pname, "cls": cls, "T": [hx(v) for v in vals]}, nontrivial=any(vals)):
+            return
+        A = self.dvs(d)[0]
+        C = T.objs(d)["c"]
+        self.dv_put(A, vals, 2 * R.FP_DIGS)
+        T.poison(C, T.sz[d])
+        before = R.get(A, T.dvsz * d)
+        res = R.call(fn, C, A)
+        if not self.noerr(key, res):
+            return
+        rinv = pow(1 << W, -1, p)
+        exp = [v * rinv % p for v in vals]
+        raw = [R.fp_raw(C + i * R.fp_sz) for i in range(d)]
+        bad = [i for i in range(d) if raw[i] % p != exp[i]]
+        ctx.check(not bad, self.fk(key, "value"), {"coefficients": bad, "got": [hx(raw[i]) for i in bad],
+                                                   "exp": [hx(exp[i]) for i in bad]})
+        ctx.check(all(x < p for x in raw), self.fk(key, "canonical"), {"raw>=p": [i for i in range(d) if raw[i] >= p]})
+        if R.target("fp_rdc") != "fp_rdc_monty_basic":     # (that variant reduces in place, by its algorithm)
+            self.unchanged(key, A, T.dvsz * d, before)
+
+    def low_pair(self, op, cls, W, prec):
+        """operands of one coefficient as plain integers: a + b < 2^W, a >= b, 2a < 2^W respectively"""
+        rng, R, p = self.rng, self.R, self.T.p
+        top = 1 << W
+        fld = (lambda: rng.randrange(p)) if prec == 1 else (lambda: rng.randrange(p) * rng.randrange(p))
+        if cls == "zero":
+            return 0, 0
+        if op == "add":
+            if cls == "ident":
+                a, b = rng.randrange(top), 0
+                return (a, b) if rng.random() < 0.5 else (b, a)
+            if cls == "carry":
+                k = R.DIG * rng.randrange(1, W // R.DIG) if rng.random() < 0.7 else rng.randrange(1, W)
+                a, b = (1 << k) - 1, 1
+                if rng.random() < 0.5:
+                    b += rng.randrange(top - (1 << k)) >> k << k        # upper digits of b: the sum still fits
+                return (a, b) if rng.random() < 0.5 else (b, a)
+            if cls == "max":
+                a = rng.randrange(top)
+                return a, top - 1 - a
+            if cls == "field":
+                a, b = fld(), fld()
+                return a, min(b, top - 1 - a)
+            a = rng.randrange(top)
+            return a, rng.randrange(top - a)
+        if op == "sub":
+            if cls == "equal":
+                a = rng.randrange(1, top)
+                return a, a
+            if cls == "ident":
+                return rng.randrange(top), 0
+            if cls == "borrow":
+                k = R.DIG * rng.randrange(1, W // R.DIG) if rng.random() < 0.7 else rng.randrange(1, W)
+                a = 1 << k
+                if rng.random() < 0.5:
+                    a += rng.randrange(top) >> k << k
+                    a = a if a < top else (1 << k)
+                return a, rng.choice([1, 1, rng.randrange(1, 1 << min(k, R.DIG))])
+            if cls == "max":
+                return top - 1, rng.randrange(top)
+            if cls == "field":
+                a, b = fld(), fld()
+                return (a, b) if a >= b else (b, a)
+            a = rng.randrange(top)
+            return a, rng.randrange(a + 1)
+        # dbl
+        if cls == "carry":
+            a = rng.getrandbits(W - 1)
+            for i in range(W // R.DIG - 1):
+                if rng.random() < 0.8:
+                    a |= 1 << (R.DIG * i + R.DIG - 1)       # the doubled digit carries into the next one
+            return a, a
+        if cls == "max":
+            return (top >> 1) - 1, 0
+        if cls == "field":
+            a = fld()
+            return (a if 2 * a < top else a >> 1), 0
+        return rng.getrandbits(W - 1), 0
+
+    def addsub_case(self, d, fn, op, prec, cls, alias):
+        ctx, R, T, rng = self.ctx, self.R, self.T, self.rng
+        ndig = prec * R.FP_DIGS
+        W = R.DIG * ndig
+        pairs = [self.low_pair(op, cls, W, prec) for _ in range(d)]
+        a = [x for x, _ in pairs]
+        b = [y for _, y in pairs]
+        key = "%s|%s" % (fn, cls)
+        self.tok = ["a%d" % alias]
+        desc = {"set": T.pname, "cls": cls, "alias": alias, "a": [hx(x) for x in a]}
+        if op != "dbl":
+            desc["b"] = [hx(x) for x in b]
+        if not ctx.begin(key, desc, nontrivial=any(a) or any(b)):
+            return
+        if prec == 1:
+            o = T.objs(d)
+            A, B, C = o["a"], o["b"], o["c"]
+            stride, total = R.fp_sz, T.sz[d]
+            for i in range(d):
+                R.fp_put_raw(A + i * stride, a[i])
+                R.fp_put_raw(B + i * stride, b[i])
+        else:
+            A, B, C = self.dvs(d)
+            stride, total = T.dvsz, T.dvsz * d
+            self.dv_put(A, a, ndig)
+            self.dv_put(B, b, ndig)
+        pc = {0: C, 1: A, 2: B}[alias]
+        if pc == C:
+            T.poison(C, total)
+        ba, bb = R.get(A, total), R.get(B, total)
+        res = R.call(fn, pc, A) if op == "dbl" else R.call(fn, pc, A, B)
+        if not self.noerr(key, res):
+            return
+        if op == "add":
+            exp = [x + y for x, y in zip(a, b)]
+        elif op == "sub":
+            exp = [x - y for x, y in zip(a, b)]
+        else:
+            exp = [2 * x for x in a]
+        n = ndig * R.DB
+        got = [int.from_bytes(R.get(pc + i * stride, n), "little") for i in range(d)]
+        bad = [i for i in range(d) if got[i] != exp[i]]
+        ctx.check(not bad, self.fk(key, "value"), {"coefficients": bad, "got": [hx(got[i]) for i in bad],
+                                                   "exp": [hx(exp[i]) for i in bad]})
+        if pc != A:
+            self.unchanged(key, A, total, ba)
+        if pc != B and op != "dbl":
+            self.unchanged(key, B, total, bb)
 
     # ---------------------------------------------------------------- directed fatal classes
     def fatal_inv_sim_n0(self, d):
